@@ -170,7 +170,7 @@ func (c20) build(src *gen.Source) *Case {
 			tmpl = strings.ReplaceAll(tmpl, "M", src.Pick([]string{"_y1", "X", "HOME"}))
 			op = Op{Op: "expand", Name: src.Pick(c20Ordinary), Value: strings.ReplaceAll(tmpl, "K", src.Pick([]string{"0", "1", "5", "12", "2147483647", "4294967296"}))}
 		default:
-			tmpl := src.Pick([]string{"N=K", "N+=K", "N++", "--N", "1/0", "N N", "N", "(N=K)+1", "N+=M", "N*=M", "N=M", "--N + --N", "N++ + N", "--N * 0 + N++", "++N + N--", "N += N", "M = (N = 5) + (N = 7)", "(N = 2) + (N = 3)", "M = ++N", "M = --N", "M = ++N"})
+			tmpl := src.Pick([]string{"N=K", "N+=K", "N++", "--N", "1/0", "N N", "N", "(N=K)+1", "N+=M", "N*=M", "N=M", "--N + --N", "N++ + N", "--N * 0 + N++", "++N + N--", "N += N", "M = (N = 5) + (N = 7)", "(N = 2) + (N = 3)", "M = ++N", "M = --N", "M = ++N", "(N)++", "--(N)", "((N)) += 3", "(N) = 7"})
 			tmpl = strings.ReplaceAll(tmpl, "M", src.Pick([]string{"_y1", "X", "HOME"}))
 			op = Op{Op: "eval", Name: src.Pick(c20Ordinary), Value: strings.ReplaceAll(tmpl, "K", src.Pick([]string{"0", "1", "5", "12", "2147483647", "4294967296"}))}
 		}
@@ -333,8 +333,11 @@ func (m *c20Model) arithPlan(expr, name string) (plan string, value string) {
 	if expr == "("+name+" = 2) + ("+name+" = 3)" {
 		return "apply", "3"
 	}
+	if expr == "("+name+") = 7" {
+		return "apply", "7" // a parenthesised name is still an lvalue (C, and so POSIX arithmetic)
+	}
 	// several uses of the variable in one evaluation: the net effect on the store
-	multi := map[string]int{"--N + --N": -2, "N++ + N": 1, "--N * 0 + N++": 0, "++N + N--": 0}
+	multi := map[string]int{"--N + --N": -2, "N++ + N": 1, "--N * 0 + N++": 0, "++N + N--": 0, "(N)++": 1, "--(N)": -1, "((N)) += 3": 3}
 	for pat, delta := range multi {
 		if expr == strings.ReplaceAll(pat, "N", name) {
 			switch curKind {
